@@ -186,7 +186,11 @@ func SiteName(id int32) string {
 // RunOne executes one simulated run with the given tape (fresh or replay) and optional program.
 func RunOne(t *testing.T, h *Harness, tp *tape.Tape, cfg map[string]string, prog []json.RawMessage, traceCap int) *Result {
 	seed := tp.Seed
-	dir := fmt.Sprintf("/dev/shm/dsim/%d/%d", os.Getpid(), seed)
+	base := os.Getenv("DSIM_SHM")
+	if base == "" {
+		base = "/dev/shm/dsim-adhoc"
+	}
+	dir := fmt.Sprintf("%s/%d/%d", base, os.Getpid(), seed)
 	os.RemoveAll(dir)
 	os.MkdirAll(dir, 0o777)
 	defer os.RemoveAll(dir)
